@@ -2,7 +2,7 @@ From MV Require Import Lib.ExtractBase C12.Modes C12.Impl_Ctx.
 From Coq Require Import ExtrOcamlBasic.
 Extraction Language OCaml.
 Extraction "c12_model" force_types all_ptrs
-  aes_set_key aes_ecb aes_cbc aes_cfb128 aes_ofb128 aes_ctr
+  aes_set_key aes_set_key_int aes_ecb aes_cbc aes_cfb128 aes_ofb128 aes_ctr
   des_set_key des_ecb des_cbc des_cfb64 des_ofb64 des_ctr
   tdes_set_key tdes_ecb tdes_cbc tdes_cfb64 tdes_ofb64 tdes_ctr
   impl_des_ctx_bytes impl_tdes_ctx_bytes impl_aes_ctx_bytes.
